@@ -27,6 +27,7 @@ func main() {
 	explain := flag.String("explain", "", "re-print a replay file against the current tree")
 	list := flag.Bool("list", false, "list properties")
 	dump := flag.String("dump", "", "debug: dump SSA of an anchor")
+	freeze := flag.Bool("freeze-names", false, "print renames_frozen.go (names and signatures of the unexported functions of the analysed tree)")
 	flag.Parse()
 
 	if *list {
@@ -74,6 +75,10 @@ func main() {
 		writeFailEvidence(*out, *prop, *tier, seed, err.Error())
 		os.Exit(1)
 	}
+	if *freeze {
+		w.dumpFrozenNames()
+		return
+	}
 	if *dump != "" {
 		fn := w.Func(*dump)
 		if fn == nil {
@@ -88,6 +93,9 @@ func main() {
 	}
 	fmt.Printf("loaded %d packages (%d module, %d production scope), %d module functions, %d captured locals promoted; load %.1fs ssa %.1fs\n",
 		len(w.All), len(w.ModAll), len(w.Mod), w.NFuncs, w.Promoted, w.LoadS, w.SSAS)
+	for _, rn := range w.Renamed {
+		fmt.Println("renamed helper recognised by package, receiver and signature:", rn)
+	}
 	r := NewReport(*prop, *tier, w)
 	func() {
 		defer func() {
